@@ -576,3 +576,41 @@ def _cond_sid_nodup(ctx: Ctx):
         if not gets or not all(g.args and isinstance(g.args[0], ast.Constant) and g.args[0].value == "sid" for g in gets):
             return False, f"{q} does not use Resolver.get('sid')"
     return True, "Resolver('sid', check_duplicate_placeholders=False); no sid template repeats a placeholder"
+
+
+# ------------------------------------------------------------------------------------------------
+def rule_disj(ctx: Ctx) -> RuleResult:
+    """R-DISJ: within one resolver, a concrete string accepted by a template is accepted by no *earlier* template
+    (resolve_first would answer with the earlier type: Sid -> path -> Sid, or Sid -> string -> Sid, changes type).
+    Decided on the regular expressions resolva builds, by NFA product emptiness over an alphabet abstraction;
+    search symbols are excluded (a concrete entity never carries them)."""
+    from .. import nfa
+
+    res = RuleResult("R-DISJ")
+    forbidden = "*><,"
+    sets = [(n, e["path_templates"], env_file(n, ctx)) for n, e in _default_order(ctx).items()]
+    n_pairs = 0
+    for rid, tpls, where in sets:
+        names = list(tpls)
+        rx = {}
+        for t in names:
+            rx[t] = _resolva_regex(tpls[t].replace("$REPO", "/repo"))[0]
+        overlaps = []
+        for i, a in enumerate(names):
+            for b in names[i + 1:]:
+                n_pairs += 1
+                try:
+                    w = nfa.witness_of_intersection(rx[a], rx[b], forbidden)
+                except nfa.Unsupported as e:
+                    raise AnalysisError(f"R-DISJ: template '{a}' or '{b}' of '{rid}' uses a construct outside the supported subset: {e}")
+                if w is not None:
+                    overlaps.append((a, b, w))
+        if overlaps:
+            for a, b, w in overlaps[:5]:
+                res.violation(["path_templates", rid, a, b, "overlap"],
+                              f"path configuration '{rid}': the concrete path {w!r} is accepted by template '{a}' and by the later "
+                              f"template '{b}': a '{b}' Sid whose path looks like this comes back as '{a}'", where, 0)
+        else:
+            res.ok(f"path configuration {rid}", f"{len(names) * (len(names) - 1) // 2} template pairs: no concrete path is accepted by two templates")
+    res.floor(n_pairs, 50, "template pairs compared")
+    return res
